@@ -1,5 +1,24 @@
 """Single source of truth for MANIFEST.json (see tools_manifest.py)."""
 CHECKS = {
+    "C01": {
+        "text": "move_dist_lt and both deprecated aliases are executed on symbolic integers with T symbolic up to 2^32 (no "
+                "unrolling); position and accumulator are proved equal to the closed form of the firmware recurrence, which is itself "
+                "proved to be the recurrence by two induction queries with unbounded T; the mpmath model tracks the precision in "
+                "force, so code that computes before setting its own precision yields a satisfiable ambient-precision query that is "
+                "replayed on the real code under that precision.",
+        "note": "mpmath operations modelled as exact rationals whose exactness at the precision in force is discharged from magnitude "
+                "bounds or by the solver; box |rate|,|accel|<=2^31, 1<=T<=2^32, 0<=accum<2^31 or 'clear'; integer arguments only",
+        "technique": "symbolic execution of the Python source on z3 integer terms + SMT (non-linear integer arithmetic) obligations per path, induction lemmas, counterexample replay",
+    },
+    "C02": {
+        "text": "move_dist_t3 (T symbolic up to 2^20) and rate_t3 (T up to 2^32 inside the binary64-exact box) are executed on symbolic "
+                "integers; results are proved equal to the closed forms R(k), S(T) of the third-order recurrence (proved to be the "
+                "recurrence by induction lemmas with unbounded T), including the three-level clear rule and the zero-jerk coincidence "
+                "with move_dist_lt; mp rounding (/6) is covered by tracked error bounds and a nondeterministic round().",
+        "note": "mp/binary64 operations modelled exactly with side-conditions (exactness or error bound) proved per path; T<=2^20 for "
+                "move_dist_t3; rate_t3 under |jerk|T^2<2^40, |accel|T<2^40 (superset of the firmware-valid domain by a paper argument)",
+        "technique": "symbolic execution of the Python source on z3 integer terms + SMT (non-linear integer arithmetic) obligations per path, induction lemmas, counterexample replay",
+    },
     "C08": {
         "text": "Symbolic execution of clip_segment/clip_code over eight unbounded reals: all feasible loop unrollings "
                 "(0-4 clips) are explored; on every path accept/reject, on-segment, orientation, inside and coverage are "
